@@ -191,7 +191,9 @@ def run(ctx):
     c09.check_alloc_guards(ctx, st)
     check_partial_reads(ctx, st["g"])
     check_partial_writes(ctx, st["g"])
-    check_partial_writes(ctx, st["g"])
+    # the protocol-parameterised login API must hand protocol version K to version K's own codec (rule shared with C14)
+    from . import c14
+    c14.check_protocol_routing(ctx)
     check_builtin_lossless(ctx, st["g"])
     ctx.rule("lay.read-write-ref", n_read + n_write, floor=READ_FLOOR + WRITE_FLOOR,
              note=f"{n_read} reader and {n_write} writer layouts of {n_containers} containers vs wowm reference ({len(skipped)} non-wire helper structs skipped)")
